@@ -75,7 +75,7 @@ def run_case(ctx, idx, ops, subsets):
         if not S:
             continue
         # client methods and server trait methods in turn (both for every selection in the thorough tier)
-        targets = ["client-mod", "server-mod"] if not ctx.quick else [("client-mod", "server-mod")[len(res) % 2]]
+        targets = ["client-mod", "server-mod"] if (not ctx.quick or any(o.get("twin") for o in ops)) else [("client-mod", "server-mod")[len(res) % 2]]
         for target in targets:
             outdir = os.path.join(d, "out_%s_%d" % (mode, len(res)))
             rc2, o2, e2, to2 = ctx.run_cli(["generate", target, "-i", spec_path, "-o", outdir, "-q", "--" + mode, ",".join(S)])
@@ -142,13 +142,17 @@ def run(ctx):
             fixed = [[{"method": "GET", "path": "/u", "operationId": "api_users_list"}, {"method": "GET", "path": "/u/{id}", "operationId": "api_users_get"}],
                      [{"method": "GET", "path": "/a", "operationId": "x"}, {"method": "POST", "path": "/a", "operationId": "x"}],
                      [{"method": "GET", "path": "/a", "operationId": "only"}, {"method": "GET", "path": "/b", "operationId": "bare", "bare": True}],
-                     [{"method": "GET", "path": "/a", "operationId": "alpha"}, {"method": "PUT", "path": "/b", "operationId": "beta"}, {"method": "GET", "path": "/c", "operationId": None}]]
+                     [{"method": "GET", "path": "/a", "operationId": "alpha"}, {"method": "PUT", "path": "/b", "operationId": "beta"}, {"method": "GET", "path": "/c", "operationId": None}],
+                     # two path keys that are ONE route on the server (trailing-slash twin, query-string variants), same method:
+                     # every selection, client AND server target in every tier (seeded C08/m3 had been caught by a random draw only)
+                     [{"method": "HEAD", "path": "/pets", "operationId": "headPets", "twin": True}, {"method": "HEAD", "path": "/pets/", "operationId": "headPetsSlash"}, {"method": "POST", "path": "/a", "operationId": "mk"}],
+                     [{"method": "GET", "path": "/a?x=1", "operationId": "one", "twin": True}, {"method": "GET", "path": "/a?x=2", "operationId": "two"}, {"method": "DELETE", "path": "/a", "operationId": "three"}]]
             ctx.judge_direct(listwidth_cases(ctx), tie="E-cli")
             sets = fixed + [rand_ops(r) for _ in range(12 if ctx.quick else 80)]
             for idx, ops in enumerate(sets):
                 def subsets(ids, quick=ctx.quick):
                     allsub = [list(c) for k in range(1, len(ids) + 1) for c in itertools.combinations(ids, k)]
-                    if quick and len(allsub) > 5:
+                    if quick and len(allsub) > 5 and not any(o.get("twin") for o in ops):
                         allsub = r.sample(allsub, 5)
                     for S in allsub:
                         for mode in ("only", "exclude"):
